@@ -389,6 +389,15 @@ def run(prog: Program, res: Result) -> None:
                                   f"`{norm(unknown[0], 50)}`, not known to keep the items as they are (undecided)")
             else:
                 res.ob(True, f"{fit.module.relpath}:{st.lineno} label table = {norm(st.value, 60)} (items kept as declared)", key)
+        inv = le.methods.get("inverse_transform")
+        if inv is not None:
+            for c_ in own_nodes(inv):
+                if isinstance(c_, ast.Compare) and len(c_.ops) == 1 and isinstance(c_.ops[0], (ast.In, ast.NotIn)) \
+                        and isinstance(c_.comparators[0], ast.Attribute) and "label_to_index" in c_.comparators[0].attr:
+                    res.ob(False)
+                    res.add(Finding(P, "C13.R6-label-table-keeps-items", construct_key(prog, c_, inv.module), f"{inv.module.relpath}:{c_.lineno}",
+                                    f"LabelEncoder.inverse_transform tests an *index* for membership among the labels (`{norm(c_, 60)}`: "
+                                    f"`in <dict>` looks at the keys): for items other than 0..n-1 every decoded entry becomes \"unknown\""))
         res.count("label-table-stores", len(stores))
         res.floor("label-table-stores", 1)
 
@@ -450,6 +459,7 @@ from ..selftest import V, run_battery  # noqa: E402
 
 _M = "pyvolutionary/models.py"
 VARIANTS = [
+    V("inverse-transform-membership-among-labels", "pyvolutionary/models.py", "if i in self.__label_to_index__.values() else", "if i in self.__label_to_index__ else", "C13.R6"),
     V("label-table-through-numpy", "pyvolutionary/models.py", "        self.__unique_labels__ = sorted(set(y), key=lambda x: (isinstance(x, (int, float)), x))",
       "        self.__unique_labels__ = np.unique(np.asarray(y)).tolist()", "C13.R6"),
     V("twin-label-table-two-steps", "pyvolutionary/models.py", "        self.__unique_labels__ = sorted(set(y), key=lambda x: (isinstance(x, (int, float)), x))",
